@@ -6,6 +6,7 @@ import (
 	"io"
 	"net"
 	"reflect"
+	"strings"
 	"testing"
 	"time"
 
@@ -93,7 +94,7 @@ func portFree(addr string, udp bool) bool {
 	return true
 }
 
-var adapterPaths = []string{"accept-direct", "accept-direct-2", "client-connects", "parent-cancel"}
+var adapterPaths = []string{"accept-direct", "accept-loop", "accept-loop-2", "client-connects", "parent-cancel"}
 
 func genAdapter(t *rapid.T) Round {
 	r := Round{Comp: "adapter", P: map[string]int{}}
@@ -156,7 +157,30 @@ func runAdapter(r Round) *outcome {
 	}
 	for _, p := range r.Paths {
 		switch p {
-		case "accept-direct", "accept-direct-2":
+		case "accept-loop", "accept-loop-2":
+			// an accept loop that keeps calling Accept while it gets errors (BaseAdapter.acceptLoop
+			// does so for timeouts): it is between two calls, or inside one, while Close tears the
+			// listener down
+			rc.spin(kindPath, "Accept", func() {
+				for i := 0; i < 3000; i++ {
+					c, err := a.Accept()
+					if err == nil && nilConn(c) {
+						rc.fail("C16/adapter/accept-returned-nil-conn-without-error/"+name,
+							fmt.Sprintf("%s adapter: Accept racing Close returned (%T(nil), nil); BaseAdapter.acceptLoop hands such a value to handleConnection", name, c))
+						return
+					}
+					if err == nil {
+						c.Close()
+					}
+					// (no IsClosed() here: it waits for the dispose lock that Close holds)
+					if err != nil {
+						if m := err.Error(); strings.Contains(m, "not initialized") || strings.Contains(m, "adapter closed") || strings.Contains(m, "context cancel") {
+							return // the adapter has finished closing
+						}
+					}
+				}
+			})
+		case "accept-direct":
 			// what BaseAdapter.acceptLoop does, from one more goroutine
 			rc.spin(kindPath, "Accept", func() {
 				c, err := a.Accept()
